@@ -15,6 +15,9 @@ pub enum Class {
     ZeroOther,
     /// C0, DEL, C1: no effect
     Unprintable,
+    /// display width above 2 (only U+17D8 in unicode-width 0.1): the statements do not say what
+    /// happens; excluded from model comparison, still subject to C01 / C09
+    Odd,
 }
 
 /// Hand-assigned classes of the characters the generators draw.
@@ -47,6 +50,35 @@ pub const CLASS_TABLE: &[(char, Class)] = &[
     ('\u{d55c}', Class::Wide),  // 한
     ('\u{3042}', Class::Wide),  // あ
     ('\u{1f600}', Class::Wide), // 😀
+    ('\u{1100}', Class::Wide),
+    ('\u{115f}', Class::Wide),
+    ('\u{2e80}', Class::Wide),
+    ('\u{3041}', Class::Wide),
+    ('\u{ac00}', Class::Wide),
+    ('\u{d7a3}', Class::Wide),
+    ('\u{f900}', Class::Wide),
+    ('\u{ff01}', Class::Wide),
+    ('\u{ff60}', Class::Wide),
+    ('\u{ffe0}', Class::Wide),
+    ('\u{1f300}', Class::Wide),
+    ('\u{20000}', Class::Wide),
+    ('\u{3fffd}', Class::Wide),
+    ('\u{ff15}', Class::Wide),
+    ('\u{2126}', Class::Narrow),
+    ('\u{212a}', Class::Narrow),
+    ('\u{212b}', Class::Narrow),
+    ('\u{37e}', Class::Narrow),
+    ('\u{2000}', Class::Narrow),
+    ('\u{2001}', Class::Narrow),
+    ('\u{1f71}', Class::Narrow),
+    ('\u{663}', Class::Narrow),
+    ('\u{2460}', Class::Narrow),
+    ('\u{b2}', Class::Narrow),
+    ('\u{bd}', Class::Narrow),
+    ('\u{969}', Class::Narrow),
+    ('\u{11b}', Class::Narrow),
+    ('\u{130}', Class::Narrow),
+    ('\u{19c}', Class::Narrow),
     ('\u{301}', Class::Combining),
     ('\u{308}', Class::Combining),
     ('\u{20dd}', Class::Combining),
@@ -96,7 +128,8 @@ pub fn class_by_crates(c: char) -> Class {
             }
         }
         Some(1) => Class::Narrow,
-        Some(_) => Class::Wide,
+        Some(2) => Class::Wide,
+        Some(_) => Class::Odd,
     }
 }
 
